@@ -50,7 +50,8 @@ def answerPasses (c i : List String) : String :=
       match kvOf i "base", kvOf i "with" with
       | some b, some w =>
         let eq := b == w && test ≠ "*"
-        s!"cmp agree=1 prop={b01 eq} class={pkgClass pkg} shape={shape} built=ok st={stateClass ((kvOf i "bs").getD "")}"
+        let rr := match kvOf i "rerun" with | some _ => " rerun=1" | none => ""
+        s!"cmp agree=1 prop={b01 eq} class={pkgClass pkg} shape={shape} built=ok st={stateClass ((kvOf i "bs").getD "")}{rr}"
       | _, _ => "bad-line agree=0 prop=0"
   | _ => "bad-line agree=0 prop=0"
 
